@@ -182,6 +182,66 @@ theorem C20_vectors :
        0x03ff622da276830b9451b88b85e6184fd6ae15c8ab3ee25a5667be8592cce3b1] := by
   kdecide
 
+/-! ## rounds and rows (generated-constants obligation)
+
+The number of rounds of a parameter set is `R_F + R_P`; the number of ROWS of its round-constant
+table is a separate fact of the source.  For the three real sets the two coincide (68); the set
+registered for `nobackend` has 4 rounds and a 68-row table.  `poseidonRounds` is counted by the
+extractor on the source literal on every run, so a change of either number — or of the code's loop
+bounds from the one to the other, which only the `nobackend` configuration can tell apart — meets
+a pinned statement; the harness runs that configuration against this model on every run. -/
+
+theorem C20_round_rows :
+    poseidonTable.map (fun kP => (kP.1, kP.2.rF, kP.2.rP, kP.2.roundConstants.length)) = poseidonRounds ∧
+    poseidonRounds = [("zkinterface", 8, 60, 68), ("zkifbellman", 8, 60, 68),
+                      ("zkifbulletproofs", 8, 60, 68), ("nobackend", 2, 2, 68)] := by
+  constructor <;> kdecide
+
+/-- the reference permutation reads exactly the first `R_F + R_P` rows: rows beyond them are never
+used, for EVERY parameter set, modulus and state -/
+theorem C20_rounds_not_rows (P : PoseidonParams) (p : Nat) (st : List Nat) :
+    Spec.Poseidon.permute P p st =
+      Spec.Poseidon.permute { P with roundConstants := P.roundConstants.take (2 * (P.rF / 2) + P.rP) } p st := by
+  have hget : ∀ r, r < 2 * (P.rF / 2) + P.rP →
+      (P.roundConstants.take (2 * (P.rF / 2) + P.rP)).getD r [] = P.roundConstants.getD r [] := by
+    intro r hr
+    simp [List.getD_eq_getElem?_getD, hr]
+  have hfold : ∀ (f g : List Nat → Nat → List Nat) (l : List Nat) (a : List Nat),
+      (∀ x b, b ∈ l → f x b = g x b) → l.foldl f a = l.foldl g a := by
+    intro f g l
+    induction l with
+    | nil => intros; rfl
+    | cons b l ih =>
+      intro a h
+      simp only [List.foldl_cons]
+      rw [h a b (by simp)]
+      exact ih _ (fun x c hc => h x c (by simp [hc]))
+  unfold Spec.Poseidon.permute
+  simp only
+  rw [hfold _ (Spec.Poseidon.fullRound { P with roundConstants := P.roundConstants.take (2 * (P.rF / 2) + P.rP) } p)
+        (List.range (P.rF / 2)) st
+        (fun x b hb => by
+          simp only [List.mem_range] at hb
+          simp only [Spec.Poseidon.fullRound]; rw [hget b (by omega)])]
+  rw [hfold _ (fun st i => Spec.Poseidon.partialRound { P with roundConstants := P.roundConstants.take (2 * (P.rF / 2) + P.rP) } p st (P.rF / 2 + i))
+        (List.range P.rP) _
+        (fun x b hb => by
+          simp only [List.mem_range] at hb
+          simp only [Spec.Poseidon.partialRound]; rw [hget (P.rF / 2 + b) (by omega)])]
+  rw [hfold _ (fun st i => Spec.Poseidon.fullRound { P with roundConstants := P.roundConstants.take (2 * (P.rF / 2) + P.rP) } p st (P.rF / 2 + P.rP + i))
+        (List.range (P.rF / 2)) _
+        (fun x b hb => by
+          simp only [List.mem_range] at hb
+          simp only [Spec.Poseidon.fullRound]; rw [hget (P.rF / 2 + P.rP + b) (by omega)])]
+
+/-- the configuration that tells rounds from rows: with the set registered for `nobackend` (4 rounds,
+68 rows) over the modulus of `pysnark/nobackend.py`, the permutation of `[0,1,2,3,4]` and the
+digest of the empty message (values the harness also obtains from the real code on every run) -/
+theorem C20_nobackend_vector :
+    Spec.Poseidon.permute poseidon_nobackend nobackendModulus [0, 1, 2, 3, 4] = [5480, 5480, 5480, 5480, 5480] ∧
+    Spec.Poseidon.hash poseidon_nobackend nobackendModulus [] = [5, 5, 5, 5] := by
+  kdecide
+
 /-- the moduli the vectors are computed over are the backends' moduli -/
 theorem C20_moduli : Spec.bn254_r = zkifModulus ∧ Spec.bls12_381_r = bellmanModulus ∧
     Spec.curve25519_l = bulletproofsModulus := by kdecide
